@@ -35,6 +35,10 @@ WITNESS = {
     # S3: a snapshot written ahead of the level-0 uploads, then the local state is reset while running (what auto-recover does)
     "S3": [["LsOpen", "new"], ["AppWrite", 1], ["LsSyncAndWait"], ["AppWrite", 2], ["LsSync"], ["Snapshot"], ["LsReset"], ["AppWrite", 3], ["LsSyncAndWait"],
            ["AppWrite", 4], ["LsSyncAndWait"], ["LsClose"]],
+    # M1: litestream re-opened right after the application's full checkpoint (read transaction at read mark 0), a sync parked between
+    # building its page map and reading the page data (hook sync.pagemap), the application's write restarts the WAL meanwhile
+    "M1": [["LsOpen", "new"], ["AppWrite", 1], ["LsSyncAndWait"], ["LsClose"], ["AppCheckpoint", "TRUNCATE"], ["AppWrite", 2], ["AppCheckpoint", "FULL"],
+           ["LsOpen", "same"], ["CkStart", "SYNC"], ["AppWrite", 3], ["CkStep"], ["LsSyncAndWait"], ["AppWrite", 4], ["LsSyncAndWait"], ["LsClose"]],
     "F3": [["LsOpen", "new"]] + [["AppGrow", 1], ["LsSyncAndWait"]] * 5 + [["LsReset"], ["AppWrite", 3], ["LsSyncAndWait"]],
 }
 
@@ -48,7 +52,7 @@ PLANS = {
         dump=("Dump_Core.cfg", 250, 2500),
         random=dict(n=80, n_thorough=800, length=28, with_down=False, with_state_loss=False),
         invariants=["C01_RestoreEqualsSource", "C01_RestoreIntegrity", "N_ReadLockWhileOpen"],
-        witnesses=["F1", "F2", "F3", "G1", "S1", "Q1", "Q2", "S3"],
+        witnesses=["F1", "F2", "F3", "G1", "S1", "Q1", "Q2", "S3", "M1"],
         nontrivial="distinct schedule with at least one acknowledgement after application writes (restore compared with the source)",
     ),
     "C04": dict(
@@ -73,7 +77,7 @@ PLANS = {
         dump=None,
         random=dict(n=120, n_thorough=800, length=30, with_down=False, with_state_loss=False, tx_heavy=True),
         invariants=["C02_EveryTxidIsACommittedState", "C02_Level0Gapless"],
-        witnesses=[],
+        witnesses=["M1", "S3", "S2"],
         audit=True, chunked=True,
         nontrivial="distinct schedule whose replica lists at least 3 TXIDs, each restored and compared with the ledger of committed states",
     ),
